@@ -7,8 +7,11 @@ cd /verif
 if ! git -C /repo apply --check "$patch" 2>/dev/null; then echo "DRILL: patch does not apply: $patch"; exit 2; fi
 git -C /repo apply "$patch"
 for id in "$@"; do
+  # evidence is only ever committed from runs on the unchanged tree: keep the current file
+  [ -f evidence/$id.json ] && cp evidence/$id.json /var/tmp/evidence-keep-$id.json
   out=$(timeout 3000 ./check "$id" --tier "${DRILL_TIER:-quick}" 2>&1 | grep -E "^(OK|VIOLATION|KNOWN-FINDING)" | cut -c1-160 | grep -v KNOWN | head -2 | tr '\n' ' ')
   echo "DRILL $(basename $(dirname "$patch"))/$(basename "$patch") $id: $out"
+  [ -f /var/tmp/evidence-keep-$id.json ] && mv /var/tmp/evidence-keep-$id.json evidence/$id.json
 done
 git -C /repo apply -R "$patch"
 git -C /repo status --short | head -3
